@@ -53,11 +53,14 @@ WORLDS = {
     'cli': dict(build=build_cli),
     'bytes': {},
     'masked': dict(build=build_masked),
+    'cppobj': dict(RNG_SEAM),
     'keystore': dict(cflags=['-DASIM_REPO="%s"' % B.REPO]),
 }
 
 
 def exe_for_replay(d):
+    if d.get('kind') == 'compile':
+        return None
     rel = d['world_exe']
     cfgname, exe = rel.split('/')[-2], rel.split('/')[-1]
     backend, sh, flavour = cfgname.split('-')
@@ -244,7 +247,70 @@ def check_C06(tier, seed):
     return o.finish()
 
 
+def compile_obligation(prop, world, backend='asm', shares=(4, 2, 4), flavour='rel'):
+    """Build a world whose translation unit *is* a compile obligation of the property.
+    Returns (exe, None) or (None, violation dict) when the harness TU does not compile against /repo's headers."""
+    import re, hashlib
+    try:
+        return world_exe(world, backend, shares, flavour), None
+    except B.BuildError as e:
+        msg = str(e)
+        if ('worlds/%s.cpp' % world) not in msg.split('\n')[0]:
+            raise   # the library itself does not build: infrastructure, not a C17 verdict
+        m = re.search(r'(/repo/[^:\s]+):(\d+):\d+: error: ([^\n]*)', msg)
+        site = '%s:%s' % (os.path.relpath(m.group(1), B.REPO), m.group(2)) if m else 'harness'
+        if not m:
+            raise
+        cls = D.VClass(prop, 'does_not_compile_when_used', site)
+        rp = os.path.join(VERIF, 'replays', '%s-%s.json' % (prop, hashlib.sha1(cls.key().encode()).hexdigest()[:10]))
+        os.makedirs(os.path.dirname(rp), exist_ok=True)
+        json.dump(dict(kind='compile', property=prop, violation_class=dict(cls._asdict()), world=world,
+                       config=[backend, list(shares), flavour], detail=m.group(3), compiler_log=msg[-6000:]), open(rp, 'w'), indent=1)
+        return None, dict(cls=cls, detail=m.group(3), replay=rp)
+
+
+def replay_compile(d):
+    exe, v = compile_obligation(d['property'], d['world'], d['config'][0], tuple(d['config'][1]), d['config'][2])
+    if v:
+        print('REPRODUCED property=%s class=%s detail=%s' % (d['property'], v['cls'].key(), v['detail']))
+        return 1
+    print('NOT-REPRODUCED property=%s: the translation unit compiles' % d['property'])
+    return 0
+
+
+def check_C17(tier, seed):
+    o = D.Outcome('C17', tier, seed)
+    o.components = dict(real=COMPONENTS_LIB['real'] + ['public C++ headers of /repo/src/ascon as included by the harness translation unit'],
+                        stub=['getrandom() (deterministic tape; only the masked classes draw from it)'])
+    o.assumptions = ['the harness translation unit asim/worlds/cppobj.cpp instantiates every public member and overload; a compile error located in a /repo header is reported as a C17 violation',
+                     'model = (key bytes, 128-bit nonce) or the call transcript, evaluated through the C API of the same library',
+                     'after clear() and after set_key with an undocumented length the object is re-keyed before further use (its content is documented as unknown)',
+                     'raw-pointer decrypt is not called with less than tag_size() bytes']
+    exe, v = compile_obligation('C17', 'cppobj')
+    if v:
+        known, fixed = D.load_known()
+        k = D.known_match(v['cls'], known)
+        o.extra['compile_obligation'] = 'FAILED: ' + v['detail']
+        if k:
+            print('KNOWN-FINDING: property=C17 %s [%s] replay=%s' % (k.get('what', ''), v['cls'].key(), v['replay']))
+            o.write_evidence(0, [v['cls'].key()], [v['replay']])
+            return 0
+        print('VIOLATION property=C17 replay=%s' % v['replay'])
+        print('  class=%s detail=%s' % (v['cls'].key(), v['detail']))
+        o.write_evidence(1, [], [v['replay']])
+        return 1
+    o.extra['compile_obligation'] = 'asim/worlds/cppobj.cpp compiled: every public member and overload of the C++ classes is instantiated there'
+    n = 40000 if tier == 'quick' else 800000
+    cfgs = [('asm', (4, 2, 4))] if tier == 'quick' else [('asm', (4, 2, 4)), ('c64', (3, 2, 3)), ('c32', (2, 2, 2)), ('gen', (4, 4, 4))]
+    for i, (be, sh) in enumerate(cfgs):
+        exe = world_exe('cppobj', be, sh, 'rel')
+        o.add(D.run_batch(exe, n if i == 0 else n // 5, tier, seed, label='cppobj@%s-%d%d%d' % (be, *sh), crash_prop='C17'))
+    o.extra['distinct_states_measure'] = 'visited (class, construction/keying path, overload, tamper kind, length class) tuples'
+    return o.finish()
+
+
 CHECKS = {
+    'C17': check_C17,
     'C06': check_C06,
     'C10': check_C10,
     'C20': check_C20,
